@@ -451,10 +451,10 @@ struct FnOwner {
     }
     void step(vf::Chooser& ch)
     {
-        unsigned w = ch.pick(9);
+        unsigned w = ch.pick(10);
         int v      = (int)ch.pick(3);
         bool oe    = ch.flag();
-        char sit[64];
+        char sit[96];
         std::snprintf(sit, sizeof sit, "%s,other-%s", st(), oe ? "has-target" : "empty");
         std::uint64_t h = vf::mix(vf::mix(m ? 10 + *m : 1, w), vf::mix(v, oe) + K * 100 + Cap);
         auto mk = [&](bool engaged) { return engaged ? F(Closure<K>(v)) : F(); };
@@ -527,6 +527,40 @@ struct FnOwner {
             vf::crumb(subj, "swap(self)", st(), "-");
             f.swap(f);
             break;
+        case 9: { // construct / assign from an inplace_function of a SMALLER capacity (converting copy and move)
+            using Small = etl::inplace_function<int(int), Cap / 2>;
+            if constexpr (sizeof(Closure<K>) <= Cap / 2) {
+                bool mv = ch.flag();
+                bool asg = ch.flag();
+                Small o = oe ? Small(Closure<K>(v)) : Small();
+                std::snprintf(sit, sizeof sit, "%s,other-%s,%s,%s", st(), oe ? "has-target" : "empty", mv ? "move" : "copy", asg ? "assign" : "construct");
+                vf::crumb(subj, "from smaller-capacity inplace_function", sit, "v=%d", v);
+                if (asg) {
+                    if (mv) {
+                        f = static_cast<Small&&>(o);
+                    } else {
+                        f = o;
+                    }
+                    m = oe ? std::optional<int>(v) : std::nullopt;
+                } else {
+                    if (mv) {
+                        F x(static_cast<Small&&>(o));
+                        vf::eq_bool("converted.bool", static_cast<bool>(x), oe);
+                        if (oe && x) { vf::eq_int("converted.call", x(3), expect(v, 3)); }
+                        live_in(x, oe ? K : 0);
+                    } else {
+                        F x(o);
+                        vf::eq_bool("converted.bool", static_cast<bool>(x), oe);
+                        if (oe && x) { vf::eq_int("converted.call", x(3), expect(v, 3)); }
+                        live_in(x, oe ? K : 0);
+                    }
+                }
+                // the source: after a copy it still holds its target, after a move it is empty and holds nothing alive
+                live_in(o, (oe && !mv) ? K : 0);
+                if (mv) { vf::eq_bool("moved-from-is-empty", static_cast<bool>(o), false); }
+            }
+            break;
+        }
         default: {
             vf::crumb(subj, "operator=(self)", st(), "-");
             F const& r = f;
